@@ -5,8 +5,8 @@
    The ed25519 group, its point encoding and Keccak-256 are oracles, bundled in [backend]; the laws a
    theorem needs are explicit premises ([keccak_laws], [encoding_laws], [module_laws]).  [sc_reduce] is
    concrete (x mod l with l regenerated from the source).  Error outcomes are part of the model:
-   [nacl_runtime_error] is what the library lets escape from libsodium for a zero scalar / identity
-   point (e.g. Monero.FromSeed(bytes(32))), so the theorems speak about constructions that return. *)
+   [scalarmult_error] (ValueError) is what the library raises for a zero scalar / identity point
+   (e.g. Monero.FromSeed(bytes(32))), so the theorems speak about constructions that return. *)
 From Coq Require Import NArith ZArith List.
 From BU Require Import Base.Exn Base.Bytes Gen.ConstsCardmon.
 From BU Require Import Model.EdLib Model.AddrXmr Model.Monero.
@@ -30,7 +30,7 @@ Print Assumptions spend_from_seed.
 
 (* seeds of every length are accepted: the only failure is libsodium's on a zero scalar *)
 Theorem seed_any_length : forall o seed net,
-  (exists w, from_seed o seed net = Ok w) \/ from_seed o seed net = Err nacl_runtime_error.
+  (exists w, from_seed o seed net = Ok w) \/ from_seed o seed net = Err scalarmult_error.
 Proof. intros o seed net. exact (Lemmas.Monero.from_seed_total _ _ _ _ _ _ seed net). Qed.
 Print Assumptions seed_any_length.
 
@@ -39,7 +39,7 @@ Print Assumptions seed_any_length.
 Theorem spend_key_domain : forall o b net,
   (forall w, from_priv_spend o b net = Ok w ->
      length b = 32%nat /\ le_to_int b < ed_order /\ le_to_int b <> 0 /\ w_priv_s w = Some b) /\
-  (forall e, from_priv_spend o b net = Err e -> e = LibError MoneroKeyError \/ e = nacl_runtime_error).
+  (forall e, from_priv_spend o b net = Err e -> e = LibError MoneroKeyError \/ e = scalarmult_error).
 Proof.
   intros o b net. split.
   - intros w H. destruct (Lemmas.Monero.from_priv_spend_ok _ _ _ _ _ _ b net w H) as (A & B & C & D & _).
